@@ -189,6 +189,16 @@ Predict(c) == [g |-> c.g, hasargs |-> c.hasargs, m |-> c.m, ts |-> c.ts, tsi |->
 Behaviour == [topo |-> [id |-> topo.id, lev |-> topo.lev, axes |-> topo.axes, off |-> [e \in 1..NElems(topo) |-> (e - 1) \in topo.off]],
               hist |-> [n \in 1..Len(hist) |-> Predict(hist[n])]]
 EmitFull == Len(hist) = MaxCalls => Emit(Behaviour)
+\* exhaustive runs: the histories in which the memo could matter at all -- the same argument dependent geometry object is
+\* located twice in a row with different argument values (first with an axis aligned map, which is the one a wrong design
+\* would remember), targets of the second call generated with its own map
+MemoRelevant == /\ Len(hist) = MaxCalls /\ MaxCalls >= 2
+                /\ LET c1 == hist[MaxCalls - 1]
+                       c2 == hist[MaxCalls]
+                   IN /\ c1.g = "P" /\ c2.g = "P" /\ c1.m # c2.m /\ c1.m.k = 0
+                      /\ c1.tsi = 1 /\ c1.own /\ c2.tsi = 1 /\ c2.own
+                      /\ (MaxCalls > 2 => hist[1].g = "F1" /\ hist[1].tsi = 1 /\ hist[1].own /\ ~hist[1].hasargs)
+EmitMemoRelevant == MemoRelevant => Emit(Behaviour)
 \* simulation: the stuttering step Done prints the behaviour of the walk that was actually taken (an invariant would
 \* also print every successor that the random walk did not choose)
 Done == Len(hist) = MaxCalls /\ Emit(Behaviour) /\ UNCHANGED vars
